@@ -602,6 +602,12 @@ type Mutation { m: Int }
 `
 
 var handRuleDocs = []string{
+	// control characters, DEL and a no-break space inside a string given for an enum (quoted back in the message)
+	"{ e(v: \"RE\\u0007D\") }", "{ e(v: \"R\\u0001D\") }", "{ e(v: \"GREEN\\u00a0\") }", "{ e(v: \"RED\\u007f\") }", "{ e(v: \"RE\u00a0D\") }", "{ e(v: \"\"\"RE\u007fD\"\"\") }",
+	// several unknown arguments on one field and on one directive
+	`{ f(nn: 1, idd: 1, frist: 2) s @skip(if: true, iff: 1, unles: 2) }`, `{ num(fll: 1, idd: 2, flss: 3) }`,
+	// directives of a fragment definition with variables, directly and nested
+	`query($v: Int) { ...FDV } fragment FDV on Query @fd(x: $v) { s }`, `query($v: Int) { ...FDV2 } fragment FDV2 on Query @opd(x: $v, b: true) @fd(x: 1) { s @fd(x: $v) }`,
 	// introspection and the built-in directives in unusual places
 	`{ __typename a { __typename } u { __typename ... on A { __typename } } i { __typename } }`, `{ __schema { types { name } } __type(name: "A") { name fields { name } } }`,
 	`{ a { __schema { types { name } } } }`, `{ a { __type(name: "A") { name } } }`, `mutation { __typename m __schema { types { name } } }`, `subscription { __typename }`, `subscription { a __typename }`,
